@@ -252,9 +252,13 @@ def run_case(ctx, k, p):
 
 def gen_problem(rng, quick, k=None):
     box = None if k is None else [None, "cfloat", "cfix", "twofloat", "material", "cfloat", "hole-fix", "twofloat"][k % 8]
-    p = femgen.gen_scalar_problem(rng, "fee", size_nodes=rng.choice([25, 40, 60]) if quick else rng.choice([40, 100, 250]), box=box)
+    # k % 5 == 2: axisymmetric with an exterior region for certain (the interior / exterior elements interleave in the solver's
+    # element order when the two regions are neighbours; the exterior label is the first, the last or any label)
+    forced = k is not None and k % 5 == 2
+    p = femgen.gen_scalar_problem(rng, "fee", axi=(True if forced else None),
+                                  size_nodes=rng.choice([25, 40, 60]) if quick else rng.choice([40, 100, 250]), box=box)
     p["dosmartmesh"] = 0 if rng.random() < 0.8 else 1
-    if p.get("problemtype") == "axisymmetric" and rng.random() < 0.6:
+    if p.get("problemtype") == "axisymmetric" and (forced or rng.random() < 0.6):
         # one region is declared part of the conformally mapped exterior region (Kelvin transformation): its
         # permittivity is divided by (r^2+z^2)/(extRi*extRo) in the assembly
         ys = [q["y"] for q in p["points"]]
